@@ -237,6 +237,19 @@ func (a *archetype) FreeTable(table *table) {
 	}
 }
 
+// RemoveTableTargets removes a table from the lookups by relation target.
+// Required when freeing a table whose relation targets are still alive.
+func (a *archetype) RemoveTableTargets(table *table) {
+	for _, m := range a.relationTables {
+		for _, v := range m {
+			_ = v.Remove(table.id)
+		}
+	}
+	for _, v := range a.targetTables {
+		_ = v.Remove(table.id)
+	}
+}
+
 // FreeAllTables frees all tables of the archetype.
 //
 // Does not clear the tables' contents.
